@@ -4,7 +4,7 @@
    modelled streams; fields carry Ok/Err/Panic/OutOfFuel, the ledger every Vec::with_capacity.
    Every loop of the model runs on fuel |file| + 1 ([fuel_of]). *)
 From RM Require C08.Model C08.Proofs.
-From RM Require Import C01.Model C01.Proofs C01.Driver C01.Final C01.Agree C01.QModel C01.QProofs C01.LModel C01.LProofs C01.LayoutPins Gen.C01Sites C01.Sites C01.SitesCheck.
+From RM Require Import C01.Model C01.Proofs C01.Driver C01.Final C01.Agree C01.QModel C01.QProofs C01.LModel C01.LProofs C01.LayoutPins C01.ConstIndex Gen.C01Sites C01.Sites C01.SitesCheck.
 Open Scope Z_scope.
 
 (* No modelled site panics, for any byte string, in debug and release builds (fixed code). *)
@@ -251,6 +251,14 @@ Theorem c01_layout_pinned : layout_pins_ok = true /\ forall arch, ctx_row_ok arc
 Proof. exact (conj layout_pinned ctx_rows_ok). Qed.
 Print Assumptions c01_layout_pinned.
 
+(* ---- round 5: every index site of minidump/src and minidump-common/src whose index is an integer literal (scanned from the
+   source on every run: Gen.C01Sites.const_index_sites) is below the length of the array it indexes; the lengths are those of
+   the struct definitions of format.rs (Gen/Layouts.v): exception_information[k], data4[k], the register arrays of the
+   CONTEXT_* structs *)
+Theorem c01_const_indices_in_bounds : forallb const_index_ok const_index_sites = true.
+Proof. exact const_indices_in_bounds. Qed.
+Print Assumptions c01_const_indices_in_bounds.
+
 (* ---- round 4: every trap / loop / allocation / guard site of minidump/src and minidump-common/src found by
    translate/c01_sites.py (Gen/C01Sites.v, regenerated from the source on every run) is a row of the reviewed table
    C01/Sites.v with the same count and digest, and every row is classified: covered by one of the theorems of this file
@@ -320,7 +328,7 @@ Definition c01_cover_index :=
    c01_header_total, c01_exception_print_total, c01_xstate_iter_total, c01_misc_info_total, c01_thread_contexts_print_total,
    c01_memory_read_in_bounds, c01_linux_kv_bounded, c01_crashpad_info_total, c01_mac_crash_info_total, c01_fixed_streams_total,
    c01_print_sites_total, c01_crash_queries_total, c01_memory_range_sound, c01_last_error_in_bounds, c01_crash_address_total,
-   c01_elf_debug_id_reads, c01_address_lookup_total, c01_get_thread_index_total, c01_lookups_total, c01_layout_pinned, c01_unloaded_lookup_in_range).
+   c01_elf_debug_id_reads, c01_address_lookup_total, c01_get_thread_index_total, c01_lookups_total, c01_layout_pinned, c01_unloaded_lookup_in_range, c01_const_indices_in_bounds).
 Example c01_nonvacuous_queries :
   memory_range Debug 18446744073709551599 16 = Ok (Some (18446744073709551599, 18446744073709551614)) /\
   memory_range Debug 18446744073709551600 16 = Ok None /\ memory_range Debug 5 0 = Ok None /\
@@ -344,7 +352,8 @@ Example c01_nonvacuous_lookups :
   run_lookups Debug nv_dump = [(33, FErr EStreamNotFound); (34, FOk [1; 0; 0; -1; -1; 0; 0]); (35, FErr EStreamNotFound);
                                (36, FErr EStreamNotFound); (37, FOk [0; 1])] /\
   get_thread_index LE [[1; 0; 0; 0]; [2; 0; 0; 0]; [1; 0; 0; 0]] 1 = Ok 2 /\
-  (length size_pins = 35 /\ length field_pins = 75 /\ length length_pins = 5)%nat /\ first_bad = [].
+  (length size_pins = 35 /\ length field_pins = 75 /\ length length_pins = 5)%nat /\ first_bad = [] /\
+  Nat.ltb 250 const_index_site_count = true /\ bad_const_index_rejected = true.
 Proof.
   cbv zeta. split.
   - repeat constructor; cbn; unfold C08.Proofs.wf_range, two64; cbn; repeat split; try discriminate; reflexivity.
